@@ -245,6 +245,16 @@ func (p *Program) Field(rel, name string) *types.Var {
 	return v
 }
 
+// TryField is Field without the panic.
+func (p *Program) TryField(rel, name string) *types.Var {
+	o := p.TryObj(rel, name)
+	v, ok := o.(*types.Var)
+	if !ok || !v.IsField() {
+		return nil
+	}
+	return v
+}
+
 // Struct returns the struct type underlying named type T in package rel.
 func (p *Program) Struct(rel, name string) *types.Struct {
 	o := p.Obj(rel, name)
